@@ -129,12 +129,12 @@ PROPS = {
                      'known finding: settings applied in earlier steps are not replayed after a restore (restore installs the dictionary and replays nothing)']),
     'C07': dict(
         mods=['contracts.c07_scenarios'], k1=K1_C07, level='proof',
-        harness='verif/native/c09_harness.py', harness_budget=(25, 120),
+        harness='verif/native/c09_harness.py', harness_budget=(25, 120), always_harness=True,
         explanation='functional contract per hop of the settings channels: SimulationScenario.__init__ / configure_settings (dictionary -> constants, '
                     'points, run specs; own values win key by key), SdSimulation.__init__/change_equation/change_points/change_runspecs (the integrating model '
                     'gets exactly the scenario\'s start, stop and dt), the step runner itself is under contract in C09)',
         assumptions=_SCEN_ASSUME,
-        not_decided=['not decided: the file channel (ScenarioManagerFactory.__readScenario, JSON/YAML parsers, base constants spread over files): file-system driven, unverified',
+        not_decided=['not decided deductively: the file channel (ScenarioManagerFactory.__readScenario, JSON/YAML parsers, base constants spread over files): file-system driven; searched natively on every run (managers split over two files, base values and scenarios in different files, own values overriding base values; bounded)',
                      'not decided: SdRunner._run_scenarios (batch path) -- exercised by the native harness only']),
     'C09': dict(
         mods=['contracts.c07_scenarios'], k1=['SdRunner.run_scenario_step', 'SdSimulation.change_equation', 'SdSimulation.change_runspecs', 'Model.equation',
